@@ -134,6 +134,10 @@ def main():
     for k in ("exec", "query"):
         mods.append(module(f"ovr_gen_{k[:4]}", [k], True, True, generic=True))
     mods.append(module("ovr_gen_none", [], True, True, generic=True))
+    # the `replies` feature switched on without any reply handler (and without migrate): no reply / migrate entry point
+    mods.append(module("ovr_none_nomr_r", [], False, True))
+    mods.append(module("ovr_sudo_nomr_r", ["sudo"], False, True))
+    mods.append(module("ovr_gen_none_nomr_r", [], False, True, generic=True))
     # several kinds overridden by one shared function path
     mods.append(module("ovr_shared_sudo_migr", ["sudo", "migrate"], True, True, shared=True))
     mods.append(module("ovr_shared_inst_exec", ["instantiate", "exec"], True, False, shared=True))
